@@ -9,24 +9,35 @@ import (
 
 func init() { register("C08", c08) }
 
-// case: ((op compare|weighted|common) (t1 T) (t2 T) (tips T|F) (ident T|F))
-// obs : ((err "msg") (stats ((tree1 n) (tree2 n) (common n) (same T|F) (serr "msg"))))       compare
-//       ((err "msg") (wstats ((tree1 (q..)) (tree2 (q..)) (common (q..)) (same T|F) (serr "msg"))))  weighted
+// case: ((op compare|weighted) (t1 T) (t2s (T ...)) (tips T|F) (ident T|F))     a STREAM of compared trees, one call, cpus=1
+//       ((op common) (t1 T) (t2 T) (tips T|F) (ident F))
+// obs : ((err "msg") (stats (((id i) (tree1 n) (tree2 n) (common n) (same T|F) (serr "msg")) ...)))           compare
+//       ((err "msg") (wstats (((id i) (tree1 (q..)) (tree2 (q..)) (common (q..)) (same T|F) (serr "msg")) ...)))  weighted
 //       ((err "msg") (tree1 n) (common n))                                                      common
-//       ((hang T))   when the stats channel did not deliver within 8 s
+//       ((hang T))   when the stats channel was not closed within 8 s
 func c08(c *Sexp) *Sexp {
 	t1, err := BuildTree(c.Get("t1"))
 	if err != nil {
 		return L(KV("panic", A("build t1: "+err.Error())))
 	}
-	t2, err := BuildTree(c.Get("t2"))
-	if err != nil {
-		return L(KV("panic", A("build t2: "+err.Error())))
-	}
 	tips := c.Bool("tips")
 	ident := c.Bool("ident")
 	op := c.Str("op")
+	var t2s []*tree.Tree
+	if l := c.Get("t2s"); l != nil && l.IsList {
+		for i, s := range l.List {
+			t, err := BuildTree(s)
+			if err != nil {
+				return L(KV("panic", A(fmt.Sprintf("build t2s[%d]: %v", i, err))))
+			}
+			t2s = append(t2s, t)
+		}
+	}
 	if op == "common" {
+		t2, err := BuildTree(c.Get("t2"))
+		if err != nil {
+			return L(KV("panic", A("build t2: "+err.Error())))
+		}
 		if e := t1.ReinitIndexes(); e != nil {
 			return L(KV("err", A("reinit t1: "+e.Error())))
 		}
@@ -43,8 +54,10 @@ func c08(c *Sexp) *Sexp {
 				done <- L(KV("panic", A(fmt.Sprintf("%v", r))))
 			}
 		}()
-		ch := make(chan tree.Trees, 1)
-		ch <- tree.Trees{Tree: t2, Id: 0, Err: nil}
+		ch := make(chan tree.Trees, len(t2s)+1)
+		for i, t2 := range t2s {
+			ch <- tree.Trees{Tree: t2, Id: i, Err: nil}
+		}
 		close(ch)
 		switch op {
 		case "compare":
@@ -55,14 +68,10 @@ func c08(c *Sexp) *Sexp {
 			}
 			recs := L()
 			for st := range stats {
-				recs.List = append(recs.List, L(KV("tree1", I(st.Tree1)), KV("tree2", I(st.Tree2)), KV("common", I(st.Common)),
+				recs.List = append(recs.List, L(KV("id", I(st.Id)), KV("tree1", I(st.Tree1)), KV("tree2", I(st.Tree2)), KV("common", I(st.Common)),
 					KV("same", B(st.Sametree)), KV("serr", A(errStr(st.Err)))))
 			}
-			if len(recs.List) != 1 {
-				done <- L(KV("panic", A(fmt.Sprintf("%d records for one tree", len(recs.List)))))
-				return
-			}
-			done <- L(KV("err", A("")), KV("stats", recs.List[0]))
+			done <- L(KV("err", A("")), KV("stats", recs))
 		case "weighted":
 			stats, e := tree.CompareWeighted(t1, ch, tips, ident, 1)
 			if e != nil {
@@ -78,14 +87,10 @@ func c08(c *Sexp) *Sexp {
 				return r
 			}
 			for st := range stats {
-				recs.List = append(recs.List, L(KV("tree1", fl(st.Tree1)), KV("tree2", fl(st.Tree2)), KV("common", fl(st.Common)),
+				recs.List = append(recs.List, L(KV("id", I(st.Id)), KV("tree1", fl(st.Tree1)), KV("tree2", fl(st.Tree2)), KV("common", fl(st.Common)),
 					KV("same", B(st.Sametree)), KV("serr", A(errStr(st.Err)))))
 			}
-			if len(recs.List) != 1 {
-				done <- L(KV("panic", A(fmt.Sprintf("%d records for one tree", len(recs.List)))))
-				return
-			}
-			done <- L(KV("err", A("")), KV("wstats", recs.List[0]))
+			done <- L(KV("err", A("")), KV("wstats", recs))
 		default:
 			done <- L(KV("panic", A("unknown op")))
 		}
